@@ -19,7 +19,12 @@ Schedules ("schedule" key of the witness):
                    inherited by fork) so that the producer pauses before the *last* put for the
                    workers' queue time-out + 0.8 s, and a worker whose receive has just timed out
                    and that reads the flag during that final phase stays descheduled until the flag
-                   has been raised.  Both are
+                   has been raised.
+  slow_flush_last  ``multiprocessing.Queue`` is wrapped (harness side) so that the last item put by the producer is slow to
+  slow_flush_mid   serialise: pickling it in the queue's feeder thread takes two receive time-outs + 1 s (3 s; multi_wcs
+                   21 s), un-pickling yields the item itself -- the feeder flush of a very large payload (multi_tan ships
+                   whole images).  Every worker can sample the shutdown flag and sit through a full receive time-out
+                   while the item is still on its way.  (slow_flush_mid: a middle item, flag still down.)  All are
                    ordinary interleavings of producer, feeder, receive time-outs and the shutdown
                    signal; nothing inside toasty is modified.
 
@@ -44,7 +49,8 @@ BOUNDS
             apex at generic depth 2, depth 0 and 4, ~70 seeded random shapes depth 2..4 (queue capacity
             2*parallel exceeded whenever leaves > 2*parallel); transform depth 0..3 (85 items > 16*2,
             16*3); multi_tan 1..6 inputs, both storage parities; multi_wcs 2 and 3 inputs; forced
-            schedules on all four stages.  Serial run of every case as well.
+            schedules on all four stages, slow-flush schedules on visit, transform and multi_tan
+            (multi_wcs: thorough only, a run lasts > 40 s).  Serial run of every case as well.
   thorough: ~2500 random visit shapes to depth 5, transform to depth 4 (341 items), more image
             collections, forced schedules for each worker count.
   Watchdog: 60 s (quick) / 120 s (thorough) per run; normal runs take 1-3 s (multi_wcs 10-25 s).
@@ -68,6 +74,39 @@ STAGE_NAME = {"visit": "visit_leaves", "transform": "transform", "multi_tan": "m
 
 class InjectedError(Exception):
     """Fault injected by the harness (used by the C19 driver)."""
+
+
+# Exception classes a processing step can raise (key "exc" of a case's "fail"; default InjectedError).  The C19 statement says
+# "an error", whatever its class: generic errors, errors of the data (ValueError, KeyError, ZeroDivisionError, AssertionError),
+# I/O errors (OSError and subclasses -- what real tile processing raises) and the classes the stages' own queue protocol
+# uses internally (queue.Empty / queue.Full, EOFError, BrokenPipeError, TimeoutError).
+EXC_CLASSES = ("InjectedError", "RuntimeError", "KeyError", "ValueError", "OSError", "FileNotFoundError", "PermissionError", "Empty", "Full",
+               "ZeroDivisionError", "EOFError", "BrokenPipeError", "TimeoutError", "AssertionError")
+
+
+def injected_exception(fail, msg):
+    """The exception object to raise for the fault description ``fail`` ({"exc": class name, ...})."""
+    import builtins
+    import errno
+    import queue
+    name = (fail or {}).get("exc") or "InjectedError"
+    if name == "InjectedError":
+        return InjectedError(msg)
+    if name in ("Empty", "Full"):
+        return getattr(queue, name)(msg)
+    if name == "OSError":
+        return OSError(errno.ENOSPC, msg)
+    if name == "FileNotFoundError":
+        return FileNotFoundError(errno.ENOENT, msg, "/nonexistent/injected")
+    if name == "PermissionError":
+        return PermissionError(errno.EACCES, msg, "/forbidden/injected")
+    if name == "BrokenPipeError":
+        return BrokenPipeError(errno.EPIPE, msg)
+    if name == "TimeoutError":
+        return TimeoutError(errno.ETIMEDOUT, msg)
+    if name not in EXC_CLASSES:
+        raise RuntimeError("unknown injected exception class %r" % (name,))
+    return getattr(builtins, name)(msg)
 
 
 # =============================================================================================
@@ -159,6 +198,22 @@ def _delay_for(delay, key):
     return d
 
 
+def _identity(x):
+    return x
+
+
+class _SlowPickle(object):
+    """Stands in for an item whose serialisation takes ``secs`` seconds (a very large payload): pickling -- done by the
+    queue's feeder thread -- sleeps, un-pickling yields the original item itself."""
+
+    def __init__(self, item, secs):
+        self.item, self.secs = item, secs
+
+    def __reduce__(self):
+        time.sleep(self.secs)
+        return (_identity, (self.item,))
+
+
 class _Schedule(object):
     """Wraps multiprocessing.Queue / Event for the forced schedules (see module docstring)."""
 
@@ -170,7 +225,8 @@ class _Schedule(object):
         self.calls = mp.Value("i", 0)
         self.local = {"empty": False}
         sched = self
-        k_delay, delay_s, wait_s, arm = spec["at_put"], spec["delay_s"], spec.get("wait_s", 0.0), spec.get("arm", False)
+        k_delay, delay_s, wait_s, arm = spec.get("at_put", 0), spec.get("delay_s", 0.0), spec.get("wait_s", 0.0), spec.get("arm", False)
+        slow_puts, slow_s = set(spec.get("slow_puts") or []), spec.get("slow_s", 0.0)
 
         class SchedEvent(object):
             def __init__(self):
@@ -199,16 +255,22 @@ class _Schedule(object):
             def __init__(self, *a, **k):
                 self._q = sched.real_Queue(*a, **k)
                 self._n = 0
+                self._delayed = set()
 
             def put(self, item, *a, **k):
-                self._n += 1
+                idx = self._n + 1          # ordinal of the item being handed over (a put that times out with Full is retried)
                 with sched.calls.get_lock():
                     sched.calls.value += 1
-                if self._n == k_delay:
+                if idx == k_delay and idx not in self._delayed:
+                    self._delayed.add(idx)
                     if arm:
                         sched.armed.set()
                     time.sleep(delay_s)
-                return self._q.put(item, *a, **k)
+                if idx in slow_puts:
+                    item = _SlowPickle(item, slow_s)       # the feeder thread needs slow_s to flush this item
+                r = self._q.put(item, *a, **k)
+                self._n = idx
+                return r
 
             def get(self, *a, **k):
                 from queue import Empty
@@ -297,7 +359,7 @@ def _run_visit(case):
         key = (pos.n, pos.x, pos.y)
         log.write("S", key, _geom(tile))
         if key == fpos:
-            raise InjectedError("injected failure at leaf %s" % (key,))
+            raise injected_exception(case.get("fail"), "injected failure at leaf %s" % (key,))
         d = _delay_for(delay, key)
         if d:
             time.sleep(d)
@@ -318,7 +380,7 @@ def _run_walk(case):
         key = (pos.n, pos.x, pos.y)
         log.write("S", key)
         if key == fpos:
-            raise InjectedError("injected failure at tile %s" % (key,))
+            raise injected_exception(case.get("fail"), "injected failure at tile %s" % (key,))
         d = _delay_for(delay, key)
         if d:
             time.sleep(d)
@@ -329,7 +391,7 @@ def _run_walk(case):
 
 # ---- logging PyramidIO ----------------------------------------------------------------------
 
-def make_logging_pio(base_dir, fmt, log, delay=None, fail_pos=None, fail_on="R"):
+def make_logging_pio(base_dir, fmt, log, delay=None, fail_pos=None, fail_on="R", fail=None):
     from toasty.pyramid import PyramidIO
 
     class LoggingPIO(PyramidIO):
@@ -337,7 +399,7 @@ def make_logging_pio(base_dir, fmt, log, delay=None, fail_pos=None, fail_on="R")
             key = (pos.n, pos.x, pos.y)
             log.write("R", key)
             if fail_on == "R" and key == fail_pos:
-                raise InjectedError("injected read failure at %s" % (key,))
+                raise injected_exception(fail, "injected read failure at %s" % (key,))
             d = _delay_for(delay, key)
             if d:
                 time.sleep(d)
@@ -346,7 +408,7 @@ def make_logging_pio(base_dir, fmt, log, delay=None, fail_pos=None, fail_on="R")
         def write_image(self, pos, image, *a, **k):
             key = (pos.n, pos.x, pos.y)
             if fail_on == "W" and key == fail_pos:
-                raise InjectedError("injected write failure at %s" % (key,))
+                raise injected_exception(fail, "injected write failure at %s" % (key,))
             r = PyramidIO.write_image(self, pos, image, *a, **k)
             log.write("W", key)
             return r
@@ -367,7 +429,7 @@ def _run_transform(case):
     logdir = _logdir(case)
     log = _Log(logdir)
     base = os.path.join(os.path.dirname(logdir), "pyr_%s" % case["id"])
-    pio = make_logging_pio(base, "png", log, case.get("delay"), _fail_pos(case), "R")
+    pio = make_logging_pio(base, "png", log, case.get("delay"), _fail_pos(case), "R", case.get("fail"))
     present = [tuple(p) for p in case["present"]]
     for p in present:
         path = pio.tile_path(Pos(n=p[0], x=p[1], y=p[2]), format="npy")
@@ -492,7 +554,7 @@ def _run_multi_tan(case):
     mos, paths = _write_tan_pieces(case, src)
 
     def tile(outdir, log, parallel, fail_pos=None, delay=None):
-        pio = make_logging_pio(outdir, "fits", log, delay, fail_pos, "R")
+        pio = make_logging_pio(outdir, "fits", log, delay, fail_pos, "R", case.get("fail"))
         b = builder.Builder(pio)
         proc = multi_tan.MultiTanProcessor(collection.load(paths))
         proc.compute_global_pixelization(b)
@@ -577,7 +639,7 @@ def _run_multi_wcs(case):
         def rp(input_data, **kw):
             arr = input_data[0]
             if active and fail_image is not None and int(math.floor(float(np.nanmin(arr)))) - 1 == fail_image:
-                raise InjectedError("injected reprojection failure for input %d" % fail_image)
+                raise injected_exception(fail, "injected reprojection failure for input %d" % fail_image)
             return reproject_interp(input_data, **kw)
         return rp
 
@@ -756,6 +818,13 @@ def _visit_case(kind, depth, accept, apex, parallel, delay, coordsys="astronomic
 def forced(case, mode, n_items, get_timeout=1.0):
     """Turn a case into a forced-schedule case (n_items = number of puts the producer will make)."""
     c = dict(case)
+    if mode in ("slow_last", "slow_mid"):
+        # the feeder thread needs two receive time-outs + 1 s to flush one item (a payload that is slow to serialise): every
+        # worker can run through "sample the flag, wait one full receive time-out" at least once while that item is on its way
+        k = n_items if mode == "slow_last" else max(1, (n_items + 1) // 2)
+        c["schedule"] = "slow_flush_last" if mode == "slow_last" else "slow_flush_mid"
+        c["sched"] = {"at_put": 0, "delay_s": 0.0, "wait_s": 0.0, "arm": False, "slow_puts": [k], "slow_s": 2 * get_timeout + 1.0}
+        return c
     if mode == "last":
         c["schedule"] = "forced_last_put"
         c["sched"] = {"at_put": n_items, "delay_s": get_timeout + 0.8, "wait_s": get_timeout + 4.0, "arm": True}
@@ -824,6 +893,11 @@ def build_cases(rng, thorough):
     nl = len(Q.Expect("f", 3, acc, None).leaves)
     if nl:
         cases.append(forced(_visit_case("f", 3, acc, None, 2, None), "last", nl))
+    for w in fw:
+        cases.append(forced(_visit_case("g", 2, [], None, w, None), "slow_last", 16))
+    cases.append(forced(_visit_case("f", 1, Q.all_positions(1, 1), None, 3, None), "slow_last", 4))
+    bounds.append("visit_leaves slow-flush schedule, workers %s: the feeder thread needs 3 s (two receive time-outs + 1 s) to serialise the "
+                  "last item (16-leaf generic pyramid; 4-leaf filtered TOAST pyramid with 3 workers)" % (list(fw),))
     bounds.append("visit_leaves forced schedules, workers %s: producer paused before the last put while every worker is between its empty "
                   "time-out and its flag read (4-leaf filtered TOAST pyramid of the design experiment, 16-leaf generic pyramid, one random "
                   "filtered depth-3 pyramid); producer paused before the middle put (flag still down)" % (list(fw),))
@@ -845,8 +919,11 @@ def build_cases(rng, thorough):
                 "schedule": "os", "sched": None}
         cases.append(forced(base, "last", len(allp)))
         cases.append(forced(base, "mid", len(allp)))
+        if thorough or w == 2:
+            cases.append(forced(base, "slow_last", len(allp)))
     bounds.append("transform (u8_to_rgb): depth %s, workers {2,3,16} (queue capacity 16*workers; exceeded at depth 3 with 85 items for 2 and 3 "
-                  "workers%s), about half of the tiles present; forced last-put and mid-put schedules at depth 2" % (
+                  "workers%s), about half of the tiles present; forced last-put and mid-put schedules at depth 2; slow-flush schedule "
+                  "(last item takes 3 s to serialise) at depth 2" % (
                       sorted(set(tdepths)), ", at depth 4 with 341 items for all" if thorough else ""))
 
     # ---------------- multi_tan
@@ -878,6 +955,19 @@ def build_cases(rng, thorough):
         cases.append(forced(base, "last", len(colls[3])))
     cases.append(forced({"stage": "multi_tan", "pieces": colls[5], "mosaic": [420, 520], "seed": 6, "bottom_up": True, "parallel": 2, "delay": None,
                          "schedule": "os", "sched": None}, "mid", 6))
+    # slow-flush schedules: an input image that is slow to serialise (a very large segment) as the last / a middle item.
+    # colls[3]: 40 kB payloads (fit into the pipe buffer), colls[1]: 385 kB payload (does not)
+    for w in fw:
+        base = {"stage": "multi_tan", "pieces": colls[3], "mosaic": [420, 520], "seed": 7, "bottom_up": bool(w % 2), "parallel": w, "delay": None,
+                "schedule": "os", "sched": None}
+        cases.append(forced(base, "slow_last", len(colls[3])))
+    cases.append(forced({"stage": "multi_tan", "pieces": colls[1], "mosaic": [420, 520], "seed": 8, "bottom_up": False, "parallel": 2, "delay": None,
+                         "schedule": "os", "sched": None}, "slow_last", 2))
+    cases.append(forced({"stage": "multi_tan", "pieces": colls[5], "mosaic": [420, 520], "seed": 9, "bottom_up": True, "parallel": 16 if thorough else 3,
+                         "delay": None, "schedule": "os", "sched": None}, "slow_mid", 6))
+    bounds.append("multi_tan slow-flush schedules, workers %s: the queue's feeder thread needs 3 s (two receive time-outs + 1 s) to serialise the "
+                  "last input image (4 inputs of 40 kB, 2 inputs of up to 385 kB) or a middle one (6 inputs): stand-in for a very large "
+                  "segment; result compared with the serial run and with the mosaic of the inputs" % (list(fw),))
     bounds.append("multi_tan: %d collections of 1..6 FITS inputs cut from one 420x520 mosaic (overlapping, abutting, disjoint), top-down and "
                   "bottom-up storage, workers {2,3,16}; forced last-put (4 inputs) and mid-put (6 inputs) schedules" % len(colls))
 
@@ -889,10 +979,14 @@ def build_cases(rng, thorough):
     base = {"stage": "multi_wcs", "pieces": wc[0], "seed": 11, "parallel": 2, "delay": None, "schedule": "os", "sched": None}
     long_cases.append(forced(base, "last", 2, get_timeout=10.0))
     if thorough:
+        long_cases.append(forced(dict(base, seed=12), "slow_last", 2, get_timeout=10.0))
+        long_cases.append(forced(dict(base, pieces=wc[1], parallel=3, seed=13), "slow_last", 3, get_timeout=10.0))
         long_cases.append(forced(dict(base, pieces=wc[1], parallel=3), "last", 3, get_timeout=10.0))
         long_cases.append(forced(dict(base, pieces=wc[1]), "mid", 3, get_timeout=10.0))
     bounds.append("multi_wcs: collections of 2-3 small FITS inputs with separate tangent points (disjoint footprints), reproject_interp, "
-                  "workers %s; forced last-put schedule (10 s worker time-out)" % ("{2,3}" if thorough else "{2}"))
+                  "workers %s; forced last-put schedule (10 s worker time-out)%s" % (
+                      "{2,3}" if thorough else "{2}", "; slow-flush schedule (last input takes 21 s to serialise)" if thorough else
+                      "; NO slow-flush schedule in this tier (a run lasts > 40 s)"))
     allc = long_cases + cases
     for i, c in enumerate(allc):
         c["id"] = i
